@@ -1533,6 +1533,10 @@ class Irc(IrcCommandDispatcher, log.Firewalled):
                     self.sasl_username and self.sasl_password:
                 self.sasl_next_mechanisms.append(mechanism)
 
+        # A copy of our own: adding 'sasl' to the set shared by the class made
+        # every other network (and this one, once the credentials are removed)
+        # request it too.
+        self.REQUEST_CAPABILITIES = set(type(self).REQUEST_CAPABILITIES)
         if self.sasl_next_mechanisms:
             self.REQUEST_CAPABILITIES.add('sasl')
 
